@@ -4,7 +4,7 @@ use crate::gen::{edge_decimals, pow10_u128, Gen, M96_MAX};
 use crate::model::*;
 use crate::report::{Assumption, Info};
 use crate::rng::Rng;
-use rust_decimal::prelude::{FromPrimitive, FromStr, ToPrimitive};
+use rust_decimal::prelude::{FromPrimitive, FromStr, ToPrimitive, Zero};
 use rust_decimal::{Decimal, RoundingStrategy};
 use std::cmp::Ordering;
 use std::panic::catch_unwind;
@@ -189,31 +189,34 @@ fn is_exact(r: &Decimal, p: &Big, s: u32) -> bool {
 }
 
 pub fn a02(seed: u64, iters: u64) -> Assumption {
-    let mut a = Assumption::new("A-DEC-02", "checked_mul: Some(r) => r == a*b exactly, when scale(a)+scale(b) <= 28 and the product fits 96 bits");
+    let mut a = Assumption::new("A-DEC-02", "checked_mul (no quotient operand): r.q == dmul(a.q,b.q), i.e. exact, whenever the exact product is representable (scale <= 28, 96-bit mantissa)");
     let g = Gen::new();
     let mut rng = Rng::new(seed, 2);
     let mut in_range = 0u64;
-    let mut out_exact = 0u64;
+    let mut in_by_zeros = 0u64;
     let mut out_none = 0u64;
-    let mut in_none = Info::new("in-range operands with checked_mul == None (counted as mismatch)");
-    let mut out_rounded = Info::new("OUT of range: Some(r) with r != exact product (rounded result)");
-    let mut lit_scale = Info::new("  of these, rounded because scale(a)+scale(b) > 28");
-    let mut lit_mant = Info::new("  of these, rounded because the product mantissa exceeds 96 bits (scale sum <= 28)");
-    let mut not_floor = Info::new("literal shim clause `r is Some ==> r.q == dmul(a.q,b.q)` (floor at 28 dp) violated");
-    let mut round_up = Info::new("  rounded result is ABOVE the exact product in absolute value (so no truncation model fits)");
+    let mut in_none = Info::new("representable product but checked_mul == None (counted as mismatch)");
+    let mut out_rounded = Info::new("OUT of range (exact product not representable): Some(r), necessarily rounded");
+    let mut lit_scale = Info::new("  of these, the product needs more than 28 decimals");
+    let mut lit_mant = Info::new("  of these, <= 28 decimals but the mantissa needs more than 96 bits");
+    let mut not_floor = Info::new("  of these, r.q != dmul(a.q,b.q) = floor(qa*qb/10^28) (the floor model does not describe the rounding either)");
+    let mut round_up = Info::new("  of these, the rounded result is ABOVE the exact product in absolute value");
 
     let mut one = |a: &mut Assumption, ma: u128, na: bool, sa: u32, mb: u128, nb: bool, sb: u32| {
         let (x, y) = (dec(ma, na, sa), dec(mb, nb, sb));
         let p = Big::from_i128(x.mantissa()).mul(&Big::from_i128(y.mantissa()));
         let s = sa + sb;
         let key = mul_key(ma, mb, s);
-        let inr = s <= 28 && p.bits() <= 96;
+        let inr = representable(&p, s);
         let r = x.checked_mul(y);
         let d = || format!("{} * {}", show(&x), show(&y));
         if inr {
             in_range += 1;
+            if s > 28 || p.bits() > 96 {
+                in_by_zeros += 1; // representable only because of trailing zeros
+            }
             match r {
-                Some(r) => a.check_k(is_exact(&r, &p, s), key, || format!("{} = {} but exact product is {}e-{}", d(), show(&r), p, s)),
+                Some(r) => a.check_k(is_exact(&r, &p, s) && q(&r) == dmul(&q(&x), &q(&y)), key, || format!("{} = {} but the exact (representable) product is {}e-{}", d(), show(&r), p, s)),
                 None => {
                     in_none.hit(key, d);
                     a.check_k(false, key, || format!("{} = None although the exact product {}e-{} is representable", d(), p, s));
@@ -223,29 +226,72 @@ pub fn a02(seed: u64, iters: u64) -> Assumption {
             match r {
                 None => out_none += 1,
                 Some(r) => {
-                    if is_exact(&r, &p, s) {
-                        out_exact += 1;
+                    debug_assert!(!is_exact(&r, &p, s));
+                    let dd = || format!("{} = {} ; exact {}e-{}", d(), show(&r), p, s);
+                    out_rounded.hit(key, dd);
+                    // decimals needed = s minus the trailing zeros of p
+                    let mut pp = p.abs();
+                    let mut need = s;
+                    while need > 0 {
+                        let (qq, ex) = pp.div_floor_u64(10);
+                        if !ex {
+                            break;
+                        }
+                        pp = qq;
+                        need -= 1;
+                    }
+                    if need > 28 {
+                        lit_scale.hit(key, dd);
                     } else {
-                        let dd = || format!("{} = {} ; exact {}e-{}", d(), show(&r), p, s);
-                        out_rounded.hit(key, dd);
-                        if s > 28 {
-                            lit_scale.hit(key, dd);
-                        } else {
-                            lit_mant.hit(key, dd);
-                        }
-                        // |r| > |exact| ?
-                        if q(&r).abs().mul_pow10(s) > p.abs().mul_pow10(28) {
-                            round_up.hit(key, dd);
-                        }
+                        lit_mant.hit(key, dd);
+                    }
+                    if q(&r).abs().mul_pow10(s) > p.abs().mul_pow10(28) {
+                        round_up.hit(key, dd);
                     }
                     let fl = dmul(&q(&x), &q(&y));
                     if q(&r) != fl {
-                        not_floor.hit(key, || format!("{} = {} (q={}) but dmul = floor(qa*qb/10^28) = {}", d(), show(&r), q(&r), fl));
+                        not_floor.hit(key, || format!("{} = {} (q={}) but floor(qa*qb/10^28) = {}", d(), show(&r), q(&r), fl));
                     }
                 }
             }
         }
     };
+    // the refined claim: representable products are exact even when scale(a)+scale(b) > 28 or the raw mantissa
+    // product exceeds 96 bits, as long as the excess consists of trailing zeros
+    {
+        let one28 = pow10_u128(28);
+        one(&mut a, 250000, false, 5, 250000, false, 5); // 2.50000 * 2.50000
+        one(&mut a, 250000, false, 5, 4, false, 0);
+        one(&mut a, one28, false, 28, 5, false, 1); // 1.0000000000000000000000000000 * 0.5
+        one(&mut a, one28, false, 28, one28, false, 28);
+        one(&mut a, one28, true, 28, one28 / 2, false, 28);
+        one(&mut a, 7 * one28, false, 28, 7 * one28, false, 28);
+        one(&mut a, one28, false, 28, M96_MAX, false, 0);
+        one(&mut a, one28, false, 28, M96_MAX, false, 28);
+        one(&mut a, 3 * pow10_u128(27), false, 28, 3 * pow10_u128(27), false, 28); // 0.3 * 0.3 written with 28 decimals
+        for k in 0..=28u32 {
+            one(&mut a, pow10_u128(k), false, k, 5, false, 1);
+            one(&mut a, pow10_u128(k), false, k, pow10_u128(28 - k), false, 28 - k);
+            one(&mut a, 25 * pow10_u128(k.min(27)), false, k.min(27), 25 * pow10_u128(27 - k.min(27)), true, 28 - k.min(27));
+        }
+    }
+    for i in 0..iters * 2 {
+        // core operands with a representable product, then padded with trailing zeros
+        let ba = rng.below(97) as u32;
+        let (ca, cb) = (rng.log_uniform(ba), rng.log_uniform(96 - ba));
+        let sa = rng.below(29) as u32;
+        let sb = rng.below(29 - sa as u64) as u32;
+        let pad = |rng: &mut Rng, c: u128, s: u32| -> (u128, u32) {
+            let mut k = rng.below((28 - s) as u64 + 1) as u32;
+            while k > 0 && c.checked_mul(pow10_u128(k)).map(|m| m > M96_MAX).unwrap_or(true) {
+                k -= 1;
+            }
+            (c * pow10_u128(k), s + k)
+        };
+        let (ma, sa2) = pad(&mut rng, ca, sa);
+        let (mb, sb2) = if i % 3 == 0 { (cb, sb) } else { pad(&mut rng, cb, sb) };
+        one(&mut a, ma, rng.one_in(3), sa2, mb, rng.one_in(3), sb2);
+    }
     // enumerated grid
     let ms: [u128; 16] = [0, 1, 2, 3, 4, 5, 6, 7, 15, 25, 35, 45, 55, 125, 1000, 999];
     let ss: [u32; 8] = [0, 1, 2, 13, 14, 15, 27, 28];
@@ -288,7 +334,7 @@ pub fn a02(seed: u64, iters: u64) -> Assumption {
             format!("{}*1e-28={}", dec(m, false, s), r.map(|r| format!("{}e-28", r.mantissa())).unwrap_or("None".into()))
         })
         .collect();
-    a.note(format!("in-range cases: {} ; out-of-range cases: Some exact {}, None {}, Some rounded {}", in_range, out_exact, out_none, out_rounded.count));
+    a.note(format!("representable (in-range) cases: {} , of which {} only thanks to trailing zeros (scale sum > 28 or raw mantissa product > 96 bits) ; out-of-range cases: None {}, Some rounded {}", in_range, in_by_zeros, out_none, out_rounded.count));
     a.note_info(&in_none);
     a.note_info(&out_rounded);
     a.note_info(&lit_scale);
@@ -301,26 +347,31 @@ pub fn a02(seed: u64, iters: u64) -> Assumption {
 
 // ------------------------------------------------------------------------------------------------ 3
 pub fn a03(seed: u64, iters: u64) -> Assumption {
-    let mut a = Assumption::new("A-DEC-03", "checked_mul(price, Decimal::from(n)) exact for scale(price) <= 18, n < 2^64");
+    let mut a = Assumption::new("A-DEC-03", "checked_mul(price, Decimal::from(n)), scale(price) <= 18, n < 2^64: exact (== pmul) whenever price*n is representable; Some whenever representable");
     let g = Gen::new();
     let mut rng = Rng::new(seed, 3);
-    let mut fits96 = 0u64;
-    let mut none = Info::new("None (integer part of price*n does not fit 96 bits; allowed, the contract reports TotalOverflow)");
+    let mut in_range = 0u64;
+    let mut in_by_zeros = 0u64;
+    let mut none = Info::new("None (not representable: integer part of price*n needs more than 96 bits; the contract reports TotalOverflow)");
     let mut none_small = Info::new("None although the integer part of price*n is below 2^96");
-    let mut mism_below = Info::new("mismatches whose product mantissa |m_price*n| is BELOW 2^96");
+    let mut out_rounded = Info::new("OUT of range (price*n not representable: mantissa needs more than 96 bits): Some(r), rounded");
     let mut min_bits: u32 = u32::MAX;
-    let mut flips = Info::new("rounded results where fract()==0 differs from 'exact product is an integer' (contract's integrality test fooled)");
+    let mut flips = Info::new("  of these, fract()==0 differs from 'exact product is an integer' (boundary of the assumption: the contract's integrality test is fooled)");
     let mut order = Info::new("operand order changes the result (n*price vs price*n)");
     let mut realistic = 0u64;
-    let mut realistic_bad = Info::new("mismatches with price < 2^64*1e-18-ish (mantissa < 2^64) and n < 10^12");
+    let mut realistic_bad = Info::new("  of these, price mantissa < 2^64 and n < 10^12");
     let mut one = |a: &mut Assumption, mp: u128, sp: u32, n: u64| {
         let price = dec(mp, false, sp);
         let dn = Decimal::from(n as u128);
         let p = Big::from_u128(mp).mul(&Big::from_u64(n));
         let key = mp + n as u128;
         let d = || format!("{} * {}", show(&price), n);
-        if p.bits() <= 96 {
-            fits96 += 1;
+        let inr = representable(&p, sp);
+        if inr {
+            in_range += 1;
+            if p.bits() > 96 {
+                in_by_zeros += 1;
+            }
         }
         let small = mp < (1u128 << 64) && n < 1_000_000_000_000;
         if small {
@@ -333,20 +384,25 @@ pub fn a03(seed: u64, iters: u64) -> Assumption {
         }
         match r {
             None => {
-                none.hit(key, d);
-                a.cases += 1; // evaluated, nothing claimed for None
-                if p.div_floor_pow10(sp).0.bits() <= 96 {
-                    none_small.hit(key, d);
+                if inr {
+                    a.check_k(false, key, || format!("{} = None although the exact product {}e-{} is representable", d(), p, sp));
+                } else {
+                    a.cases += 1; // evaluated, nothing claimed
+                    none.hit(key, d);
+                    if p.div_floor_pow10(sp).0.bits() <= 96 {
+                        none_small.hit(key, d);
+                    }
                 }
             }
             Some(r) => {
-                let ok = is_exact(&r, &p, sp);
-                a.check_k(ok, key, || format!("{} = {} but exact product is {}e-{} (product mantissa has {} bits)", d(), show(&r), p, sp, p.bits()));
-                if !ok {
+                let ok = is_exact(&r, &p, sp) && q(&r) == pmul(&q(&price), &Big::from_u64(n));
+                if inr {
+                    a.check_k(ok, key, || format!("{} = {} but the exact (representable) product is {}e-{}", d(), show(&r), p, sp));
+                } else {
+                    a.cases += 1; // out of the claimed range: informational
+                    debug_assert!(!ok);
+                    out_rounded.hit(key, || format!("{} = {} ; exact {}e-{} ({} bits)", d(), show(&r), p, sp, p.bits()));
                     min_bits = min_bits.min(p.bits());
-                    if p.bits() <= 96 {
-                        mism_below.hit(key, d);
-                    }
                     if small {
                         realistic_bad.hit(key, d);
                     }
@@ -358,6 +414,30 @@ pub fn a03(seed: u64, iters: u64) -> Assumption {
             }
         }
     };
+    // prices written with trailing zeros: raw mantissa product above 96 bits but representable
+    one(&mut a, 250000, 5, 4);
+    one(&mut a, pow10_u128(18), 18, u64::MAX);
+    one(&mut a, 25 * pow10_u128(17), 18, u64::MAX);
+    one(&mut a, pow10_u128(18) * 1_000_000, 18, 10_000_000_000_000_000_000);
+    for k in 0..=18u32 {
+        for n in [1u64, 3, 1000, 999_999_999_999, 1 << 40, u64::MAX, 10_000_000_000_000_000_000] {
+            one(&mut a, pow10_u128(k), k, n);
+            one(&mut a, 125 * pow10_u128(k), k.max(3), n);
+            one(&mut a, 79 * pow10_u128(k), 18, n);
+        }
+    }
+    for _ in 0..iters {
+        // core price with few significant digits, padded with zeros to a longer scale; n often a multiple of 10^j
+        let sp = rng.below(19) as u32;
+        let core = rng.log_uniform(40);
+        let mut k = rng.below(sp as u64 + 1) as u32;
+        while core * pow10_u128(k) > M96_MAX {
+            k -= 1;
+        }
+        let mp = core * pow10_u128(k);
+        let n = if rng.coin() { g.n64(&mut rng) } else { (rng.log_uniform(30) as u64).saturating_mul(10u64.pow(rng.below(10) as u32)) };
+        one(&mut a, mp, sp, n);
+    }
     // enumerated: every edge mantissa at every scale 0..=18 against edge sizes
     for &mp in &g.edges {
         for sp in 0..=18u32 {
@@ -374,6 +454,14 @@ pub fn a03(seed: u64, iters: u64) -> Assumption {
             }
         }
     }
+    // the smallest operands (by sum) whose mantissa product reaches 2^96 are both near 2^48
+    for dm in 0..48u128 {
+        for dn in 0..48u64 {
+            for sp in [1u32, 6, 18] {
+                one(&mut a, (1u128 << 48) + dm, sp, (1u64 << 48) + dn);
+            }
+        }
+    }
     for i in 0..iters * 4 {
         let sp = g.scale(&mut rng, 18);
         let n = g.n64(&mut rng);
@@ -385,27 +473,62 @@ pub fn a03(seed: u64, iters: u64) -> Assumption {
         };
         one(&mut a, mp, sp, n);
     }
-    a.note(format!("cases whose product mantissa fits 96 bits: {} ; smallest product bit length among mismatches: {}", fits96, if min_bits == u32::MAX { "n/a".to_string() } else { min_bits.to_string() }));
-    a.note_info(&mism_below);
+    // informational mirror of util.rs is_invalid_price_precision: price (any scale <= 28, as parsed from a string)
+    // times 10^k, k <= 18, then fract() != 0.  With an exact product the answer is "price has more than k decimals".
+    let mut pp_cases = 0u64;
+    let mut pp_flip = Info::new("is_invalid_price_precision mirror (price of any scale * 10^k, k<=18): real fract()!=0 differs from the exact answer");
+    let mut pp_none = 0u64;
+    let mut pp = |mp: u128, sp: u32, k: u32| {
+        let price = dec(mp, false, sp);
+        pp_cases += 1;
+        match price.checked_mul(Decimal::from(10u128.pow(k))) {
+            None => pp_none += 1,
+            Some(r) => {
+                let real_invalid = r.fract().ne(&Decimal::zero());
+                let exact_invalid = !is_whole(&pmul(&q(&price), &Big::pow10(k)));
+                if real_invalid != exact_invalid {
+                    pp_flip.hit(mp, || format!("price {} precision {}: real says invalid={}, exact product says invalid={} (real product {})", show(&price), k, real_invalid, exact_invalid, show(&r)));
+                }
+            }
+        }
+    };
+    pp(10u128.pow(28) + 1, 28, 18);
+    pp(10u128.pow(28) + 1, 28, 2);
+    for &mp in &g.edges {
+        for sp in [0u32, 2, 6, 18, 19, 20, 27, 28] {
+            for k in [0u32, 2, 6, 18] {
+                pp(mp, sp, k);
+            }
+        }
+    }
+    for _ in 0..iters {
+        pp(g.m96(&mut rng), g.scale(&mut rng, 28), rng.below(19) as u32);
+    }
+    a.note(format!("representable (in-range) cases: {} , of which {} have a raw mantissa product above 96 bits (trailing zeros)", in_range, in_by_zeros));
+    a.note_info(&out_rounded);
+    a.note(format!("  smallest bit length of a non-representable product that still returned Some: {}", if min_bits == u32::MAX { "n/a".to_string() } else { min_bits.to_string() }));
+    a.note_info(&flips);
     a.note(format!("cases with price mantissa < 2^64 and n < 10^12: {}", realistic));
     a.note_info(&realistic_bad);
-    a.note_info(&flips);
     a.note_info(&none);
     a.note_info(&none_small);
     a.note_info(&order);
+    a.note(format!("price-precision mirror cases: {} (None/overflow: {})", pp_cases, pp_none));
+    a.note_info(&pp_flip);
     a
 }
 
 // ------------------------------------------------------------------------------------------------ 4
 pub fn a04(seed: u64, iters: u64) -> Assumption {
-    let mut a = Assumption::new("A-DEC-04", "checked_sub: Some(r) => r == a-b exactly (result representable at scale max(sa,sb))");
+    let mut a = Assumption::new("A-DEC-04", "checked_sub: r.q == dsub(a.q,b.q), i.e. exact, whenever the exact difference is representable (scale <= 28, 96-bit mantissa)");
     let g = Gen::new();
     let mut rng = Rng::new(seed, 4);
     let mut in_range = 0u64;
     let mut out_none = 0u64;
-    let mut out_exact = 0u64;
-    let mut out_rounded = Info::new("OUT of range (a-b needs more than 96 bits at scale max(sa,sb)): Some(r) with r != a-b; literal shim clause `r.q == dsub(a.q,b.q)` violated");
-    let mut add_rounded = Info::new("checked_add (modelled, unused by the contract): Some(r) with r != a+b");
+    let mut in_by_zeros = 0u64;
+    let mut out_rounded = Info::new("OUT of range (a-b is not representable): Some(r), rounded");
+    let mut add_rounded = Info::new("checked_add (modelled, unused by the contract): Some(r) with r != a+b where a+b is not representable");
+    let mut add_bad = Info::new("checked_add: a+b representable but the result is None or inexact");
     let mut one = |a: &mut Assumption, x: Decimal, y: Decimal| {
         let s = x.scale().max(y.scale());
         let ax = Big::from_i128(x.mantissa()).mul_pow10(s - x.scale());
@@ -415,8 +538,11 @@ pub fn a04(seed: u64, iters: u64) -> Assumption {
         let key = (x.mantissa().unsigned_abs() + y.mantissa().unsigned_abs()) << 8 | s as u128;
         let d = || format!("{} - {}", show(&x), show(&y));
         let r = x.checked_sub(y);
-        if diff.bits() <= 96 {
+        if representable(&diff, s) {
             in_range += 1;
+            if diff.bits() > 96 {
+                in_by_zeros += 1;
+            }
             match r {
                 Some(r) => a.check_k(q(&r) == want, key, || format!("{} = {} but exact difference*10^28 is {}", d(), show(&r), want)),
                 None => a.check_k(false, key, || format!("{} = None although the exact difference {}e-{} is representable", d(), diff, s)),
@@ -426,17 +552,20 @@ pub fn a04(seed: u64, iters: u64) -> Assumption {
             match r {
                 None => out_none += 1,
                 Some(r) => {
-                    if q(&r) == want {
-                        out_exact += 1
-                    } else {
-                        out_rounded.hit(key, || format!("{} = {} ; exact {}e-{}", d(), show(&r), diff, s))
-                    }
+                    debug_assert!(q(&r) != want);
+                    out_rounded.hit(key, || format!("{} = {} ; exact {}e-{}", d(), show(&r), diff, s))
                 }
             }
         }
-        if let Some(r) = x.checked_add(y) {
-            if q(&r) != q(&x).add(&q(&y)) {
-                add_rounded.hit(key, || format!("{} + {} = {}", show(&x), show(&y), show(&r)));
+        let sum = ax.add(&by);
+        match x.checked_add(y) {
+            Some(r) if q(&r) == q(&x).add(&q(&y)) => {}
+            other => {
+                if representable(&sum, s) {
+                    add_bad.hit(key, || format!("{} + {} = {:?}", show(&x), show(&y), other.map(|r| show(&r))));
+                } else if let Some(r) = other {
+                    add_rounded.hit(key, || format!("{} + {} = {}", show(&x), show(&y), show(&r)));
+                }
             }
         }
     };
@@ -467,9 +596,10 @@ pub fn a04(seed: u64, iters: u64) -> Assumption {
         }
         one(&mut a, x, y);
     }
-    a.note(format!("in-range cases: {} ; out-of-range: None {}, Some exact {}, Some rounded {}", in_range, out_none, out_exact, out_rounded.count));
+    a.note(format!("representable (in-range) cases: {} , of which {} need trailing zeros dropped (more than 96 bits at scale max(sa,sb)) ; out-of-range: None {}, Some rounded {}", in_range, in_by_zeros, out_none, out_rounded.count));
     a.note_info(&out_rounded);
     a.note_info(&add_rounded);
+    a.note_info(&add_bad);
     a
 }
 
@@ -584,20 +714,24 @@ pub fn a08(seed: u64, iters: u64) -> Assumption {
 
 // ------------------------------------------------------------------------------------------------ 9
 pub fn a09(seed: u64, iters: u64) -> Assumption {
-    let mut a = Assumption::new("A-DEC-09", "to_u128(): None if q<0; Some(whole(q)) < 2^96 if q>=0");
-    let mut nz_none = Info::new("q == 0 with the sign bit set (negative zero) returns None; shim claims Some(0) for every q >= 0");
+    let mut a = Assumption::new("A-DEC-09", "to_u128(): q<0 => None; q>=0 and not a negative zero => Some(whole(q)) < 2^96; Some(v) => q>=0 and v == whole(q)");
+    let mut nz_none = Info::new("negative zero (sign bit set, zero mantissa; excluded from the Some-claim) returns None");
     let check = |a: &mut Assumption, nz_none: &mut Info, name: &str, d: &Decimal| {
         let v = q(d);
         let r = d.to_u128();
+        // Some(v) => q >= 0 && v == whole(q) && v < 2^96   (claimed for every input)
+        if let Some(x) = r {
+            a.check(!v.is_neg() && Some(x) == whole(&v).to_u128() && x < LIMIT96, || format!("{}{}.to_u128() = Some({}) but whole(q) = {}", name, show(d), x, whole(&v)));
+        }
         if v.is_neg() {
             a.check(r.is_none(), || format!("{}{}.to_u128() = {:?} but value is negative", name, show(d), r));
-        } else {
-            let want = whole(&v).to_u128();
-            let ok = r.is_some() && r == want && r.unwrap() < LIMIT96;
-            a.check(ok, || format!("{}{}.to_u128() = {:?} but the shim claims Some({})", name, show(d), r, whole(&v)));
-            if !ok && v.is_zero() && d.is_sign_negative() {
+        } else if is_neg_zero(d) {
+            a.cases += 1; // evaluated; no Some-claim for a negative zero
+            if r.is_none() {
                 nz_none.hit(0, || format!("{}{}", name, show(d)));
             }
+        } else {
+            a.check(r.is_some(), || format!("{}{}.to_u128() = None but q >= 0 and it is not a negative zero; the shim claims Some({})", name, show(d), whole(&v)));
         }
     };
     for (n, d) in neg_zeros() {
@@ -714,8 +848,6 @@ pub fn a12(seed: u64, iters: u64) -> Assumption {
     let mut a = Assumption::new("A-DEC-12", "from_str(d.to_string()) == d by value");
     let mut same_repr = 0u64;
     let mut diff_str_eq_val = 0u64;
-    let mut prev: Option<Decimal> = None;
-    let g = Gen::new();
     let mut rng = Rng::new(seed, 12);
     for d in unary_inputs(seed, 12, iters, true) {
         let s = d.to_string();
@@ -741,8 +873,6 @@ pub fn a12(seed: u64, iters: u64) -> Assumption {
             }
             a.check(e == d, || format!("{} != {}", show(&e), show(&d)));
         }
-        let _ = (&prev, &g);
-        prev = Some(d);
     }
     let two = (Decimal::from_str("2").unwrap(), Decimal::from_str("2.0").unwrap());
     a.note(format!("\"2\" vs \"2.0\": equal={} to_string=({:?},{:?})", two.0 == two.1, two.0.to_string(), two.1.to_string()));
@@ -789,5 +919,151 @@ pub fn a19(seed: u64, iters: u64) -> Assumption {
         }
     }
     a.note(format!("mul cases {} ; sub cases {} ; div cases {}", n_mul, n_sub, n_div));
+    a
+}
+
+// ------------------------------------------------------------------------------------------------ negative zero (extra)
+/// the shim's ghost flag `nz`: from_str, checked_mul, checked_sub, checked_div, checked_add, fract, round, round_dp,
+/// round_dp_with_strategy, from_u128, From<u128>, zero() are claimed never to return a negative zero (for ANY input,
+/// including inputs that are themselves negative zeros); only trunc/floor/ceil/abs/neg may.
+pub fn a20(seed: u64, iters: u64) -> Assumption {
+    nz_audit(seed, iters, false)
+}
+/// the same functions applied to operands that already ARE negative zeros (the shim's `!r.nz@` is unconditional)
+pub fn a21(seed: u64, iters: u64) -> Assumption {
+    nz_audit(seed, iters, true)
+}
+fn nz_audit(seed: u64, iters: u64, nz_inputs: bool) -> Assumption {
+    let mut a = if nz_inputs {
+        Assumption::new("A-DEC-NZ-21", "no negative zero from checked_mul/sub/div/add/fract/round/round_dp/round_dp_with_strategy EVEN IF an operand is a negative zero (`!r.nz@` is claimed unconditionally)")
+    } else {
+        Assumption::new("A-DEC-NZ-20", "no negative zero from from_str/checked_mul/sub/div/add/fract/round/round_dp/round_dp_with_strategy/from_u128/From<u128> when no operand is a negative zero")
+    };
+    let g = Gen::new();
+    let mut rng = Rng::new(seed, 20);
+    let mut zero_results = 0u64;
+    let mut from_nz_input = 0u64;
+    // per function: (negative zeros returned for inputs none of which is a negative zero, ... for a negative-zero input)
+    let stats: std::cell::RefCell<std::collections::BTreeMap<String, (u64, u64, String)>> = std::cell::RefCell::new(Default::default());
+    let nz = |a: &mut Assumption, zero_results: &mut u64, what: &dyn Fn() -> String, r: Option<Decimal>| {
+        if let Some(r) = r {
+            if r.mantissa() == 0 {
+                *zero_results += 1;
+            }
+            a.check(!is_neg_zero(&r), || format!("{} = {} is a negative zero", what(), show(&r)));
+            if is_neg_zero(&r) {
+                let w = what();
+                let fname = w.split(|c| c == '(').next().unwrap_or("").rsplit('.').next().unwrap_or("").to_string();
+                let fname = if w.starts_with("from_str") { "from_str".to_string() } else { fname };
+                let input_nz = w.contains(",-0]");
+                let mut st = stats.borrow_mut();
+                let e = st.entry(fname).or_insert((0, 0, String::new()));
+                if input_nz {
+                    e.1 += 1;
+                } else {
+                    e.0 += 1;
+                    if e.2.is_empty() {
+                        e.2 = format!("{} = {}", w, show(&r));
+                    }
+                }
+            }
+        } else {
+            a.cases += 1;
+        }
+    };
+    // from_str
+    let mut lits: Vec<String> = ["-0", "-0.0", "-0.000", "-00", "-.0", "-0.", "+0", "0", "-0.0000000000000000000000000000", "-0.00000000000000000000000000004",
+        "-0.00000000000000000000000000005", "-0.000000000000000000000000000049999", "-0.0000000000000000000000000000000000001", "-0_0", "-0.00000000000000000000000000000"]
+        .iter().map(|s| s.to_string()).collect();
+    for k in 0..40usize {
+        lits.push(format!("-0.{}", "0".repeat(k)));
+        lits.push(format!("-0.{}4", "0".repeat(k)));
+        lits.push(format!("-{}", "0".repeat(k + 1)));
+    }
+    if !nz_inputs {
+        for s in &lits {
+            nz(&mut a, &mut zero_results, &|| format!("from_str({:?})", s), Decimal::from_str(s).ok());
+        }
+        nz(&mut a, &mut zero_results, &|| "from_u128(0)".to_string(), Decimal::from_u128(0));
+        nz(&mut a, &mut zero_results, &|| "Decimal::from(0u128)".to_string(), Some(Decimal::from(0u128)));
+        nz(&mut a, &mut zero_results, &|| "Decimal::zero()".to_string(), Some(Decimal::zero()));
+        nz(&mut a, &mut zero_results, &|| "Decimal::from(0i32)".to_string(), Some(Decimal::from(0i32)));
+    }
+    // unary
+    let strategies = [
+        (RoundingStrategy::MidpointAwayFromZero, "MidpointAwayFromZero"), (RoundingStrategy::MidpointNearestEven, "MidpointNearestEven"),
+        (RoundingStrategy::MidpointTowardZero, "MidpointTowardZero"), (RoundingStrategy::ToZero, "ToZero"), (RoundingStrategy::AwayFromZero, "AwayFromZero"),
+        (RoundingStrategy::ToNegativeInfinity, "ToNegativeInfinity"), (RoundingStrategy::ToPositiveInfinity, "ToPositiveInfinity"),
+    ];
+    let mut small_neg: Vec<Decimal> = Vec::new();
+    for s in 1..=28u32 {
+        for m in [1u128, 4, 5, 6, 9, 49, 50, 51] {
+            small_neg.push(dec(m, true, s));
+        }
+    }
+    let mut inputs = unary_inputs(seed, 20, iters, true);
+    inputs.extend(small_neg.iter().copied());
+    for d in &inputs {
+        if is_neg_zero(d) != nz_inputs {
+            continue;
+        }
+        if is_neg_zero(d) {
+            from_nz_input += 1;
+        }
+        nz(&mut a, &mut zero_results, &|| format!("{}.fract()", show(d)), Some(d.fract()));
+        nz(&mut a, &mut zero_results, &|| format!("{}.round()", show(d)), Some(d.round()));
+        for dp in [0u32, 1, 2, 5, 27, 28] {
+            nz(&mut a, &mut zero_results, &|| format!("{}.round_dp({})", show(d), dp), Some(d.round_dp(dp)));
+            for (st, name) in &strategies {
+                nz(&mut a, &mut zero_results, &|| format!("{}.round_dp_with_strategy({}, {})", show(d), dp, name), Some(d.round_dp_with_strategy(dp, *st)));
+            }
+        }
+    }
+    // binary
+    let zs: Vec<Decimal> = neg_zeros().into_iter().map(|(_, d)| d).chain([dec(0, false, 0), dec(0, false, 7), dec(0, false, 28)]).collect();
+    let mut pairs: Vec<(Decimal, Decimal)> = Vec::new();
+    for x in zs.iter().chain(small_neg.iter()) {
+        for y in zs.iter() {
+            pairs.push((*x, *y));
+            pairs.push((*y, *x));
+        }
+        for y in [dec(1, false, 0), dec(1, true, 0), dec(1, false, 1), dec(1, false, 28), dec(1, true, 28), dec(3, false, 0), dec(M96_MAX, false, 0), dec(M96_MAX, true, 0), dec(5, false, 1)] {
+            pairs.push((*x, y));
+            pairs.push((y, *x));
+        }
+        pairs.push((*x, *x));
+    }
+    for i in 0..iters {
+        let x = g.mixed(&mut rng, true);
+        let y = match i % 4 {
+            0 => x,
+            1 => -x,
+            2 => dec(rng.below(10) as u128, rng.coin(), 28),
+            _ => g.mixed(&mut rng, true),
+        };
+        pairs.push((x, y));
+    }
+    for (x, y) in &pairs {
+        if (is_neg_zero(x) || is_neg_zero(y)) != nz_inputs {
+            continue;
+        }
+        nz(&mut a, &mut zero_results, &|| format!("{}.checked_mul({})", show(x), show(y)), x.checked_mul(*y));
+        nz(&mut a, &mut zero_results, &|| format!("{}.checked_sub({})", show(x), show(y)), x.checked_sub(*y));
+        nz(&mut a, &mut zero_results, &|| format!("{}.checked_add({})", show(x), show(y)), x.checked_add(*y));
+        if !y.is_zero() {
+            let r = catch_unwind(|| x.checked_div(*y)).unwrap_or(None);
+            nz(&mut a, &mut zero_results, &|| format!("{}.checked_div({})", show(x), show(y)), r);
+        }
+    }
+    a.note(format!("results that are zero: {} ; unary inputs that are negative zeros: {}", zero_results, from_nz_input));
+    for (f, (clean, dirty, ex)) in stats.borrow().iter() {
+        a.note(format!("negative zero returned by {}: {} times with no negative-zero operand{} ; {} times when an operand already was a negative zero",
+            f, clean, if ex.is_empty() { String::new() } else { format!(" (first: {})", ex) }, dirty));
+    }
+    let may: Vec<String> = [("trunc", dec(4, true, 1).trunc()), ("floor", dec(0, false, 0).floor()), ("ceil", dec(4, true, 1).ceil()), ("abs", dec(4, true, 1).trunc().abs()), ("neg", -Decimal::ZERO)]
+        .iter().map(|(n, d)| format!("{} -> {}", n, show(d))).collect();
+    if !nz_inputs {
+        a.note(format!("functions allowed to produce a negative zero (nz unspecified): {}", may.join(" ; ")));
+    }
     a
 }
